@@ -5,10 +5,10 @@
 
 enum SrcFamily {
   SRC_SILENCE = 0, SRC_DC, SRC_TONES, SRC_SWEEP, SRC_VOICED, SRC_NOISE, SRC_CLICKS, SRC_SQUARE,
-  SRC_STEREO, SRC_NONFINITE, SRC_DENORMAL, SRC_DITHER, SRC_MUSIC, SRC_STEADYVOICED, SRC_ANTIPHASE, SRC_BURSTYSTEREO, SRC_NFAM
+  SRC_STEREO, SRC_NONFINITE, SRC_DENORMAL, SRC_DITHER, SRC_MUSIC, SRC_STEADYVOICED, SRC_ANTIPHASE, SRC_BURSTYSTEREO, SRC_ONSETS, SRC_NFAM
 };
 static const char *const kSrcName[] = {"silence", "dc", "tones", "sweep", "voiced", "noise", "clicks", "square",
-                                       "stereo", "nonfinite", "denormal", "dither", "music", "steadyvoiced", "antiphase", "burstystereo"};
+                                       "stereo", "nonfinite", "denormal", "dither", "music", "steadyvoiced", "antiphase", "burstystereo", "onsets"};
 
 struct Source {
   int fam = SRC_SILENCE;
@@ -108,6 +108,16 @@ static inline float src_sample(const Source &s, int fs, int ch, int64_t n) {
       double env = (n % (fs / 16)) < (fs / 160) ? 1.0 : 0.15;
       double v = env * noise_at(s.seed, n, ch) + 0.5 * sin(TWO_PI * (f0 * (1.0 + 0.29 * ch)) * t);
       return (float)(A * v / 1.5);
+    }
+    case SRC_ONSETS: {
+      // speech-like harmonic bursts that start and stop abruptly (2 ms ramps) with digital silence in between; burst p3 ms (default 220),
+      // pause 0.68 of that: whatever the packet duration, onsets fall into every frame position of a multi-frame packet
+      double bl = (s.p3 > 0 ? s.p3 : 220) / 1000.0, per = bl * 1.68, tt = fmod(t, per);
+      if (tt > bl) return 0.f;
+      double env = std::min(1.0, std::min(tt, bl - tt) / 0.002);
+      double ph = TWO_PI * f0 * (1.0 + 0.05 * sin(TWO_PI * 3.0 * t)) * t, v = 0;
+      for (int h = 1; h <= 10; h++) v += sin(h * ph + 0.3 * h * h) / h;
+      return (float)(A * env * v / 2.5 * (ch & 1 ? 0.8 : 1.0));
     }
     case SRC_MUSIC: {
       // chord with slow amplitude modulation + a little noise: keeps the music detector busy
